@@ -119,8 +119,12 @@ def load (maxOrder : Nat) (path : String) (lowerPaths : List String) (quirk : Bo
       | .error e => lowerOk := "error-" ++ e.name
       | .ok us =>
         let um : Std.HashMap String Rat := us.foldl (fun m (w, q) => m.insert (bytesStr w) q) {}
+        -- LowerRestBuild: `unigrams_[0]` starts as unknown_missing_logprob and is overwritten only if the unigram file lists
+        -- <unk>; words the file does not list keep 0.0.  HashedSearch::ApplyBuild calls SetRest for ids 0 … counts[0]-1 only, so
+        -- with <unk> absent from the main file the last unigram keeps rest = 0.0 (as for REST_MAX).
         let uni : Word → Rat := fun w =>
           if w == 0 then (match um.get? "<unk>" with | some q => q | none => (um.get? "<UNK>").getD (-100))
+          else if a.unkHallucinated && w == lastUni then 0
           else (um.get? (vs.getD w "?")).getD 0
         let mut lowers : List (Nat × Arpa) := []
         let mut bad := false
